@@ -102,7 +102,9 @@ Read(d) ==
     /\ nops' = nops + 1
     /\ UNCHANGED <<written, pend, segs>>
 
-NSeqs == UNION {[1..k -> Sizes] : k \in 1..3}
+\* longest vector handed to Writev (overridden by the model-checking configurations)
+MaxVecLen == 3
+NSeqs == UNION {[1..k -> Sizes] : k \in 1..MaxVecLen}
 
 Next ==
     \/ \E n \in Sizes : Write(n) \/ Read(n)
